@@ -81,12 +81,16 @@ def extreme_runs(chk, stats):
     rng = chk.rng
     n = 0
     kinds_all = ["xgb", "rf", "bestbatch", "pso", "cors", "gp"]
-    for li in range(6 if chk.tier == "quick" else 36):
-        kinds = [("halton", 3), (kinds_all[(li // 3) % len(kinds_all)], 2), (rng.choice(kinds_all[:5]), 2)]
-        mode = li % 3          # which side of the float32 range the history exceeds: only below, only above, both
+    for li in range(12 if chk.tier == "quick" else 48):
+        kinds = [("halton", 3), (kinds_all[(li // 3) % len(kinds_all)] if li % 4 != 3 else ("gp", "rf", "xgb")[(li // 4) % 3], 2),
+                 (rng.choice(kinds_all[:5]), 2)]
+        mode = li % 4          # which side of the float32 range the history exceeds: only below, only above, both; 3: NaN losses
         vals = {0: [1.0, -1e39, float("-inf"), 2.5, -3.5e38, 0.25, -1e300],
                 1: [1.0, 1e39, 3.5e38, 2.5, 1e300, 0.25, float("inf")],
-                2: [1.0, 1e39, -1e39, 3.5e38, 2.5, 1e300, 0.25, -3.5e38]}[mode]
+                2: [1.0, 1e39, -1e39, 3.5e38, 2.5, 1e300, 0.25, -3.5e38],
+                # losses of diverged simulations: a surrogate may refuse such a history or impute the missing values for
+                # its own fit - the recorded NaN must stay a NaN
+                3: [1.0, float("nan"), 2.5, 0.25, float("nan"), 3.0, 0.5]}[mode]
         stats[f"extreme:mode{mode}"] += 1
         rng.shuffle(vals)
         samplers = [rl.make_sampler(k, bs, 5) for k, bs in kinds]
